@@ -3,7 +3,8 @@ import Tahoe.Immutable.Helper
 import Tahoe.Immutable.HelperClient
 /-! Driver for C44.
     `fetch CHUNK CTHEX FAULTS` — FAULTS = `-` or faults joined by `,`: `n` (none), `rI` (I-th read_encrypted
-       call of the attempt fails), `e` (failure after the fetch completed).  Output: one field per attempt
+       call of the attempt fails), `xI.K` (the helper dies at the I-th call and only the first K bytes of the partial file survive),
+       `e` (failure after the fetch completed).  Output: one field per attempt
        made, `incomingLen/encodingLen/ok` (`x` = file absent), joined by `;`, then ` used=` hex of the
        ciphertext handed to the encoder (or `none`).
     `present ACTIVE SHNUMS TOTAL` — ACTIVE ∈ 0 1, SHNUMS = `-` or numbers joined by `,`, TOTAL = number or
@@ -21,6 +22,10 @@ def parseFault (s : String) : Option Fault :=
   if s == "n" then some .none
   else if s == "e" then some .encode
   else if s.startsWith "r" then (s.drop 1).toString.toNat?.map Fault.read
+  else if s.startsWith "x" then
+    match ((s.drop 1).toString).splitOn "." with
+    | [i, k] => do pure (Fault.crash (← i.toNat?) (← k.toNat?))
+    | _ => none
   else none
 
 def parseFaults (s : String) : Option (List Fault) :=
